@@ -84,8 +84,8 @@ CHECKS = {
                         "lax.delete_edges", "lax.map_nodes", "lax.serde_roundtrip", "lax.h.delete_nodes_witness"],
     },
     "C12": {
-        "quick": {"gen": [G("MC_C12", "MC_C12_quick.cfg"), G("MC_C12", "MC_C12_wide.cfg")], "drive": [D("strict", 3000)]},
-        "thorough": {"gen": [G("MC_C12", "MC_C12_thorough.cfg"), G("MC_C12", "MC_C12_thorough_b.cfg"), G("MC_C12", "MC_C12_wide.cfg")], "drive": [D("strict", 50000)]},
+        "quick": {"gen": [G("MC_C12", "MC_C12_quick.cfg"), G("MC_C12", "MC_C12_wide.cfg")], "drive": [D("strict", 1500, only=["functor."])]},
+        "thorough": {"gen": [G("MC_C12", "MC_C12_thorough.cfg"), G("MC_C12", "MC_C12_thorough_b.cfg"), G("MC_C12", "MC_C12_wide.cfg")], "drive": [D("strict", 20000, only=["functor."])]},
         "require_ops": ["functor.map_arrow", "laxf.dyn_map_arrow", "functor.laws"],
     },
     "C13": {
